@@ -45,7 +45,7 @@ def mk(rng, ops, **kw):
 
 def gen_histories(tier, seed):
     rng = Rng(PROP, seed, "gen")
-    scale = 3 if tier == "quick" else 30
+    scale = 3 if tier == "quick" else 100
     out = []
     pools = [1, 2, 4, 16]
 
